@@ -194,7 +194,9 @@ func TestVerifC11ConnStatsSched(t *testing.T) {
 	res := make([]ccObs, len(cases))
 	for ci, c := range cases {
 		o := ccObs{Ops: names}
+		bad := 0
 		for _, name := range names {
+			badOp := 0
 			for _, v4 := range []bool{true, false} {
 				if _, tp := csOpsTp[name]; tp && !v4 {
 					continue
@@ -241,6 +243,9 @@ func TestVerifC11ConnStatsSched(t *testing.T) {
 						}
 					}
 					for _, sc := range scheds {
+						if bad >= 12 || badOp >= 3 { // a handful of failing schedules name the defect; a hang costs seconds per step
+							break
+						}
 						cs, ops := mk()
 						r := ccRun{Op: name, House: house, V4: v4, Sched: sc}
 						r.Out, r.Detail, r.Sections = ccExec(ops, sc)
@@ -252,6 +257,10 @@ func TestVerifC11ConnStatsSched(t *testing.T) {
 							case <-time.After(3 * time.Second):
 								r.Out, r.Detail = "hang", "Reset() does not return after every thread has returned: the statistics lock is still held"
 							}
+						}
+						if r.Out != "ok" {
+							bad++
+							badOp++
 						}
 						o.Runs = append(o.Runs, r)
 					}
